@@ -12,3 +12,6 @@ func verifEvtKV(kind string, key string, a, b int64) {}
 
 // verifEvtSet reports every message of a produce set.
 func verifEvtSet(kind string, set *produceSet, a int) {}
+
+// verifEvtMsgs reports every message of a slice.
+func verifEvtMsgs(kind string, msgs []*ProducerMessage, a int) {}
